@@ -76,6 +76,13 @@ class ParserModel:
                 out.append(b)
         return out
 
+    def line_reader(self):
+        """the parser's line reader function (bound by role: the same-file function returning io::Result<line> that the head reader calls)"""
+        ds = {self.rd.blocks[b]["term"].get("inl_enter") for b in self.line_calls()}
+        if len(ds) != 1:
+            raise CheckerError("parser rules: the head reader's line reader was not found (%s)" % sorted(map(str, ds)))
+        return self.facts.fn(ds.pop())
+
     def after_read(self, value, stop_at_read=True, **kw):
         """abstract paths of next() after the call of read returned `value`"""
         out = []
